@@ -14,6 +14,13 @@ import heapq
 from typing import Any, Callable, Dict, List, Optional, Tuple
 
 
+import contextvars
+
+#: identifies the workload operation on whose behalf a socket is opened (set by the harness
+#: in each operation's task; inherited by everything that task awaits)
+OP_TAG: "contextvars.ContextVar[Any]" = contextvars.ContextVar("verif_op_tag", default=None)
+
+
 class SimDeadlock(Exception):
     """Every task is blocked and no timer is pending."""
 
@@ -140,6 +147,8 @@ class SimDatagramTransport(asyncio.DatagramTransport):
             self._local = (local_addr[0], local_addr[1])
         else:
             self._local = (net.client_ip, net.alloc_port())
+        self.op = OP_TAG.get()
+        self.tag = net.next_tag(self.op)
         self.sock_id = net.register_socket(self)
 
     # transport API ---------------------------------------------------
@@ -268,6 +277,8 @@ class SimNetwork:
         self.latency_fn: Optional[Callable[[str, int, bytes], Optional[int]]] = None
         self.tap: Optional[Callable[[str, int, bytes, tuple, tuple], None]] = None
         self.partition_until = -1.0
+        self._tag_counts: Dict[Any, int] = {}
+        self.tag_latency: Optional[Callable[[str, tuple], Optional[int]]] = None
 
     # bookkeeping --------------------------------------------------------
     def log(self, kind: str, *details: Any) -> None:
@@ -276,6 +287,14 @@ class SimNetwork:
 
     def count(self, name: str, n: int = 1) -> None:
         self.counters[name] = self.counters.get(name, 0) + n
+
+    def next_tag(self, op: Any) -> Optional[tuple]:
+        """(operation, n-th socket opened on behalf of that operation)"""
+        if op is None:
+            return None
+        n = self._tag_counts.get(op, 0)
+        self._tag_counts[op] = n + 1
+        return (op, n)
 
     def alloc_port(self) -> int:
         self._next_port += 1
@@ -324,7 +343,11 @@ class SimNetwork:
                 break
         return out
 
-    def _latency(self, direction: str, idx: int, data: bytes) -> int:
+    def _latency(self, direction: str, idx: int, data: bytes, tag: Optional[tuple] = None) -> int:
+        if self.tag_latency is not None and tag is not None:
+            v = self.tag_latency(direction, tag)
+            if v is not None:
+                return max(1, int(v))
         if self.latency_fn is not None:
             v = self.latency_fn(direction, idx, data)
             if v is not None:
@@ -354,7 +377,14 @@ class SimNetwork:
             self.count("fault_partition_drop")
             self.log("partition_drop", direction, idx)
             return
-        ticks = self._latency(direction, idx, data)
+        if sock is not None:
+            tag = sock.tag
+        else:
+            peer = self.bound.get(dst)
+            tag = getattr(peer, "tag", None)
+        if tag is not None:
+            self.log("tag", direction, idx, tag)
+        ticks = self._latency(direction, idx, data, tag)
         deliveries = [(ticks, data)]
         for kind, param in self._decide(direction, idx):
             self.count("fault_" + kind)
